@@ -183,6 +183,8 @@ int main(int argc, char **argv) {
                 {"loop-head", {"<loop", " set=\"b\"", " value=\"v\"", " value=\"loop1-value\"", " sort=\"ascend\"", " group=\"y\"", ">", "{var:v}", "{var:a} ", "</loop>", "\"", " "}, 5, 4, false},
                 {"svar", {"{svar:p", "{svar:q", ",", "{var:a}", "{raw:s}", "{math:1+1}", "{var:a", "}", " ", "{0}"}, 6, 5, false},
                 {"mixed-nesting", {"{svar:x", "{if case=\"1\" true=\"", "<if>", "<if case=\"1\">", "<loop>", "<loop value=\"v\">", "}", "<else", "<else>", "</if>", "</loop>", "{var:v}", "\""}, 6, 6, false},
+                {"deep-levels", {"<loop set=\"b\" value=\"v\">", "@IF255@", "<loop set=\"b\" value=\"w\" sort=\"descend\">{var:w}</loop>", "@END255@", "{var:v};</loop>",
+                                 "<loop set=\"g\" value=\"w\" group=\"y\">{var:w}</loop>", "<if case=\"1\">"}, 5, 5, false},
                 {"many-sub-tags", {"{if case=\"1\"", "{if case=\"0\"", " true=\"@MANY@\"", " false=\"@MANY@\"", " true=\"{var:b}\"", " false=\"{var:b}\"", "\"", "}"}, 5, 4, false},
             };
             const int mk = atoi(a.get("micro", "0").c_str());
@@ -199,6 +201,13 @@ int main(int argc, char **argv) {
                             many += "{var:a}";
                         }
                         tt.replace(at, 6, many);
+                    }
+                    if (tt == "@IF255@" || tt == "@END255@") {
+                        std::string rep;
+                        for (int k = 0; k < 255; k++) { // with the loop around them: one more open tag than an 8-bit level holds
+                            rep += (tt == "@IF255@") ? "<if case=\"1\">" : "</if>";
+                        }
+                        tt = rep;
                     }
                     al.tokens.push_back(T(tt.c_str()));
                 }
